@@ -410,6 +410,20 @@ pub fn gen(seed: u64, tier: &str) -> Vec<String> {
         long.name = Some(super::aset::run_string(1, 200, '\u{30A2}'));
         push_hand(&mut lines, endian, 9, &[long]);
     }
+    // second use: the ordinary round trip right after failing parses of damaged copies of the image
+    {
+        let count = if thorough { 1500 } else { 120 };
+        for _ in 0..count {
+            let n = *rng.pick(&[1usize, 1, 2, 3]);
+            let mut specs: Vec<AssetSpec> = (0..n).map(|_| rand_spec(&mut rng)).collect();
+            if rng.chance(1, 2) {
+                specs[0].name = Some(super::aset::rand_name(&mut rng));
+            }
+            let at = lines.len();
+            push(&mut lines, rng.next() as u32, &specs);
+            lines[at] = lines[at].replacen(" asset ", " asset-after ", 1);
+        }
+    }
     // interleave refused calls with ordinary ones (second use on one thread)
     rng.shuffle(&mut lines);
     lines
@@ -492,10 +506,23 @@ pub fn run_line(_st: &mut super::State, line: &str) -> String {
         flags: f[2].parse().unwrap(),
         specs: f[3..].iter().map(|s| spec_of(s)).collect(),
     };
+    if f[1] == "asset-after" {
+        // second use: the same round trip once after each kind of preceding (mostly failing) call
+        let outs: Vec<String> = (1..=6).map(|v| round_trip(&binary, v)).collect();
+        return if outs.iter().all(|o| *o == outs[0]) {
+            format!("{} {}", id, outs[0])
+        } else {
+            format!("{} {} unstable", id, outs[0])
+        };
+    }
+    format!("{} {}", id, round_trip(&binary, 0))
+}
+
+fn round_trip(binary: &AssetBinary, variant: usize) -> String {
     let out = match no_panic(|| binary.serialize()) {
         Err(_) => "panic".to_string(),
         Ok(Err(_)) => "err".to_string(),
-        Ok(Ok(bytes)) => match no_panic(|| BinArchive::from_bytes(&bytes, Endian::Little)) {
+        Ok(Ok(bytes)) => match { super::aset::pre_call(variant, &bytes); no_panic(|| BinArchive::from_bytes(&bytes, Endian::Little)) } {
             Err(_) => format!("ok ? {} rr-panic", hex(&bytes)),
             Ok(Err(_)) => format!("ok ? {} rr-err", hex(&bytes)),
             Ok(Ok(archive)) => {
@@ -521,5 +548,5 @@ pub fn run_line(_st: &mut super::State, line: &str) -> String {
             }
         },
     };
-    format!("{} {}", id, out)
+    out
 }
